@@ -74,7 +74,8 @@ let init () =
          let v = C.n_of_hex version in
          ["some"; C.hex_of_n e.M.e_depth; C.hex_of_bytes e.M.e_fingerprint; C.hex_of_n e.M.e_child_number;
           C.hex_of_bytes e.M.e_chain_code; e.M.e_key;
-          C.hex_of_bytes (M.spec_string g sha256 v e false); C.hex_of_bytes (M.spec_string g sha256 v e true)]
+          (match M.spec_string g sha256 v e false with Some s -> C.hex_of_bytes s | None -> "unserialisable");
+          (match M.spec_string g sha256 v e true with Some s -> C.hex_of_bytes s | None -> "unserialisable")]
        | None -> ["none"])
     | _ -> failwith "c12.spec: arity");
   Proto.register "c12.ckdpub" (fun args -> match args with
